@@ -5,7 +5,8 @@ from props import hc_common as H
 from gen_hc import Sim, Net, pick_cfg, random_traffic, pick_len, parse_frames
 
 PROP = "C15"
-LAKE_TARGETS = ["Uflow.Props.C15", "uflow_driver"]
+LAKE_TARGETS = ["Uflow.Props.C15", "Uflow.Props.C15Hc", "uflow_driver"]
+PROPS_FILES = ["C15", "C15Hc"]
 TRUSTED_BASE = [
     "Lean 4.33 kernel; axioms per theorem under coverage.axioms",
     "tools/extract_consts.py",
